@@ -40,7 +40,7 @@ fn gen_ev(seed: u64, n: usize, len: usize, out: &str) {
             writeln!(w, "pull s={} from={} r=1", 1 - s0, s0).unwrap();
             has_room[1 - s0].insert(1);
         }
-        let l = 3 + g.below(len);
+        let l = 6 + g.below(len);
         for _ in 0..l {
             let s = g.below(sites);
             let my_rooms: Vec<u64> = has_room[s].iter().copied().collect();
@@ -73,7 +73,7 @@ fn gen_ev(seed: u64, n: usize, len: usize, out: &str) {
                     }
                 }
                 4 => {
-                    if let (Some(a), Some(b)) = (pick(&mut g, &persons), pick(&mut g, &persons)) {
+                    if let Some((a, b)) = pick2(&mut g, &persons) {
                         writeln!(w, "ref s={} n={} m={}", s, a, b).unwrap();
                     }
                 }
@@ -83,7 +83,7 @@ fn gen_ev(seed: u64, n: usize, len: usize, out: &str) {
                     }
                 }
                 6 => {
-                    if let (Some(a), Some(b)) = (pick(&mut g, &persons), pick(&mut g, &persons)) {
+                    if let Some((a, b)) = pick2(&mut g, &persons) {
                         writeln!(w, "refdel s={} n={} m={}", s, a, b).unwrap();
                     }
                 }
@@ -127,8 +127,18 @@ fn gen_ev(seed: u64, n: usize, len: usize, out: &str) {
                     let k = 2 + g.below(4);
                     let mut used = BTreeSet::new();
                     let mut items = vec![];
+                    // a concurrent ingestion from the other site
+                    let with_pull = sites == 2 && g.chance(1, 2);
+                    let mut pull = String::new();
+                    if with_pull {
+                        let t = 1 - s;
+                        let theirs: Vec<u64> = has_room[t].iter().copied().collect();
+                        if let Some(r) = pick(&mut g, &theirs) {
+                            pull = format!(" pull={}:{}", t, r);
+                        }
+                    }
                     for _ in 0..k {
-                        match g.weighted(&[4, 3, 2, 1]) {
+                        match g.weighted(&[4, if pull.is_empty() { 3 } else { 0 }, if pull.is_empty() { 2 } else { 0 }, 1, 2]) {
                             0 => {
                                 if let Some(r) = pick(&mut g, &my_rooms) {
                                     let e = g.below(2) as u64;
@@ -152,17 +162,41 @@ fn gen_ev(seed: u64, n: usize, len: usize, out: &str) {
                                     }
                                 }
                             }
-                            _ => {
+                            3 => {
                                 let mine: Vec<u64> =
                                     owner.iter().filter(|(_, o)| **o == s).map(|(r, _)| *r).collect();
                                 if let Some(r) = pick(&mut g, &mine) {
                                     items.push(format!("roomadd,r:{}", r));
                                 }
                             }
+                            _ => {
+                                if !my_rooms.is_empty() {
+                                    let m = 1 + g.below(3);
+                                    let mut rs = vec![];
+                                    for _ in 0..m {
+                                        let r = *g.pick(&my_rooms);
+                                        let e = g.below(2) as u64;
+                                        rs.push(format!("{}.{}.{}", next_row, r, e));
+                                        rows[s].insert(next_row, (r, e));
+                                        next_row += 1;
+                                    }
+                                    items.push(format!("stream,rows:{}", rs.join("+")));
+                                }
+                            }
                         }
                     }
                     if !items.is_empty() {
-                        writeln!(w, "mix s={} ops={}", s, items.join(";")).unwrap();
+                        writeln!(w, "mix s={} ops={}{}", s, items.join(";"), pull).unwrap();
+                        if !pull.is_empty() {
+                            let t = 1 - s;
+                            let r: u64 = pull.rsplit(':').next().unwrap().parse().unwrap();
+                            has_room[s].insert(r);
+                            let add: Vec<(u64, (u64, u64))> =
+                                rows[t].iter().filter(|(_, v)| v.0 == r).map(|(k, v)| (*k, *v)).collect();
+                            for (k, v) in add {
+                                rows[s].insert(k, v);
+                            }
+                        }
                     }
                 }
                 12 => writeln!(w, "flush s={}", s).unwrap(),
@@ -190,6 +224,18 @@ fn gen_ev(seed: u64, n: usize, len: usize, out: &str) {
         }
     }
     w.flush().unwrap();
+}
+
+fn pick2(g: &mut Gen, v: &[u64]) -> Option<(u64, u64)> {
+    if v.len() < 2 {
+        return None;
+    }
+    let a = g.below(v.len());
+    let mut b = g.below(v.len() - 1);
+    if b >= a {
+        b += 1;
+    }
+    Some((v[a], v[b]))
 }
 
 fn pick(g: &mut Gen, v: &[u64]) -> Option<u64> {
